@@ -529,13 +529,29 @@ def run_property(mod, tier, seed, replay=None):
       # them, fall back to the snapshot (the theorems then speak about the snapshot, tied to the code by the probes below)
       changed = [w for w in getattr(mod, 'GEN', []) if w not in fallbacks and differs_from_snapshot(w)]
       if changed:
+        new_texts = {}
         for w in changed:
+          try:
+            new_texts[w] = open(os.path.join(COQ, GEN_TARGETS[w])).read()
+          except OSError:
+            pass
           install_snapshot(w)
         ok2, log2 = build(vo_targets)
         if ok2:
           for w in changed:
             fallbacks[w] = 'proofs do not check on the regenerated text (%s)' % first_error(log)[:300]
           ok, log = ok2, log2
+          # harmless rewrite or change of meaning?  both texts are executable: Coq evaluates them on a battery of exact inputs
+          import genprobe
+          for w in changed:
+            if genprobe.supported(w) and w in new_texts:
+              obligations.append('gen-vs-model:%s' % w)
+              try:
+                gb, gstats = genprobe.compare(w, new_texts[w])
+              except Exception as e:
+                gb, gstats = [{'kind': 'correspondence-run', 'name': 'gen-vs-model:%s' % w, 'detail': '%s: %s' % (type(e).__name__, e)}], {}
+              notes.setdefault('gen_vs_model', {})[w] = gstats
+              broken += gb
     if not ok:
       broken.append({'kind': 'proof', 'name': first_error(log).split(':')[0], 'detail': first_error(log)})
     else:
@@ -705,7 +721,7 @@ def run_property(mod, tier, seed, replay=None):
       else:
         lines.append('KNOWN-FINDING-RESOLVED: property=%s %s (stored witness no longer fails)' % (pid, f['what']))
 
-  discharged = len(obligations) - len({b['name'] for b in broken if b['kind'] in ('proof', 'axioms', 'translator', 'lint')}) - \
+  discharged = len(obligations) - len({b['name'] for b in broken if b['kind'] in ('proof', 'axioms', 'translator', 'lint', 'gen-vs-model')}) - \
       (1 if any(b['kind'].startswith('correspondence') or b['kind'] == 'model-build' for b in broken) else 0)
   if any(b['kind'] == 'proof' for b in broken):
     discharged = min(discharged, len(obligations) - len(thms) - (1 if any(b['kind'].startswith('corr') for b in broken) else 0))
